@@ -181,6 +181,24 @@ def sender_vectors(args):
             break
         got.append(list(e.mac))
     out.append(dict(k="order", read_macs=got, arrived_macs=macs[-len(got):] if got else []))
+    # a node that scans AND advertises: what available() already queued survives the node's own advertisement (a further
+    # packet that arrived but was not polled yet is waiting in the radio at that moment)
+    if len(out) >= 3 and all(v.get("k") == "rx" and v.get("has_sent") for v in out[:2]):
+        rx3 = Rx()
+        rx3.feed(out[0]["payload"], out[0]["rfch"])
+        rx3.tune(out[1]["rfch"])
+        c3 = rx3.b.chip
+        rx3.b.air.phantom_tx(c3.pipe_addr(0), out[1]["rfch"], c3.aw(), c3.rate(), c3.crc_len(), bytes(out[1]["payload"]))
+        rx3.ble.listen = False
+        adv3 = rx3.b.advertise(single=(b"\x01\x02", 0xFF))
+        rx3.ble.listen = True
+        got = []
+        while adv3["exc"] == "none":
+            e = rx3.ble.read()
+            if e is None:
+                break
+            got.append(list(e.mac))
+        out.append(dict(k="order", read_macs=got[:1], arrived_macs=[out[0]["sent"]["mac"]] if out[0]["queued"] else []))
     # two receiving objects in one process, fed and polled in turn: each hands out exactly what ITS radio received
     if len(out) >= 4:
         rxa, rxb = Rx(), Rx()
